@@ -341,6 +341,21 @@ UNITS += [
          ),
 ]
 
+UNITS += [
+    Unit(name="actor_pack_id", file=PK, kind="block", within="fn new<BE: DecryptWriteBackend>(\n        fwh: FileWriterHandle<BE>,",
+         anchor="@closure:.map(|(file, index): (BytesList, IndexPack)|",
+         block_sig="fn actor_pack_id(file: BytesList, index: IndexPack) -> (r: (BytesList, PackId, IndexPack))",
+         block_tail="",
+         functions=["blob::packer::Actor::new (first closure of the writer pipeline: the pack's name)"],
+         rewrites=[Rw(r"hash_reader\(file\.clone\(\)\.reader\(\)\)\s*\.expect\(\"reading from memory cannot fail\"\)", "vhash_reader(file.vclone_reader())", regex=True, why="hash_reader over a clone of the byte list + expect -> stub: SHA-256 of these bytes"),
+                   Rw("PackId::from(id)", "vpackid_from_id(id)", why="Id -> PackId")],
+         contract="""
+    ensures
+        // the pack's name is the hash of exactly the bytes that are handed on to be written, and the index entry travels with them
+        /*@pack_name_is_hash_of_its_bytes*/ r.1.0 == SHA256(file.all@) && r.0.all@ == file.all@ && r.2 == index,
+"""),
+]
+
 # repair index queues the packs whose headers are re-read with the size PackHeader::from_file is given: the unit lives in C12's
 # spec (PackChecker::check_pack) and is verified as part of this check as well
 SATELLITES = [("C12", ["NodeAction", "ModifierChange", "ModifierAction", "TreeAction", "RewriteVisitor", "repair_index_check_pack"])]
@@ -353,7 +368,7 @@ KANI = [
 KANI_UNWIND = 4
 META = {"not_covered": [
     "binary header encoding itself (binrw derive: to_binary / from_binary) - uninterpreted HEADER/PARSE; a Kani round-trip harness did not finish in 20 min",
-    "pack id = SHA-256 of the pack file (computed in the Actor/FileWriterHandle thread pipeline)",
+    "the Actor/FileWriterHandle thread pipeline itself (channels, readahead); its first closure (pack id = SHA-256 of the bytes handed on) IS a unit, FileWriterHandle::process is a unit of C03",
     "repair-index command, Repacker, serde of index files",
     "BasicPacker::new / should_save (SystemTime), PackSizer::add_size",
 ]}
